@@ -126,6 +126,19 @@ static void section_gen() {
         dispatch(n, "2I", m, idx++);
         for (int i = 0; i < n * n; ++i) m[i] = (long double)(i * i % 7 + (i / n == i % n ? 3 : 0)) / 4;
         dispatch(n, "fixed", m, idx++);
+        // G0b: well-conditioned matrices with a small (or large) overall scale: |det| far below epsilon although kappa is small
+        for (int sh : { -6, -10, -13, -18, 9 }) {
+            long double sc = ldexpl(1.0L, sh);
+            for (int i = 0; i < n * n; ++i) m[i] = ((i / n == i % n) ? 1 : 0) * sc;
+            dispatch(n, "scaledI", m, idx++);
+            for (int i = 0; i < n * n; ++i) m[i] = (long double)(i * i % 7 + (i / n == i % n ? 3 : 0)) / 4 * sc;
+            dispatch(n, "scaledfixed", m, idx++);
+            // a scaled rotation-like matrix: (1/3)[[1,2,2],[2,1,-2],[2,-2,1]] embedded, times sc, plus a translation column for n = 4
+            for (int i = 0; i < n * n; ++i) m[i] = ((i / n == i % n) ? 1 : 0) * sc;
+            if (n >= 3) { static const int Rm[9] = { 1, 2, 2, 2, 1, -2, 2, -2, 1 }; for (int c = 0; c < 3; ++c) for (int r = 0; r < 3; ++r) m[c * n + r] = (long double)Rm[c * 3 + r] / 3 * sc; if (n == 4) { m[3 * n + 0] = 2 * sc; m[3 * n + 1] = -sc; m[3 * n + 3] = 1; } }
+            else { m[0] = 0.6L * sc; m[1] = 0.8L * sc; m[2] = -0.8L * sc; m[3] = 0.6L * sc; }
+            dispatch(n, "scaledrot", m, idx++);
+        }
         // G1: small integers
         for (int k = 0; k < 12 * K; ++k) {
             int w = (k % 3 == 0) ? 1 : (k % 3 == 1 ? 3 : 9);
